@@ -17,6 +17,8 @@
     (`tight_total_count`, any list of active pairs on the grid);
   * `empty_background_distance_1` — the first `mwpm` call of a decode (no matched pairs yet): algorithm 1 weighs a pair
     of same-type plaquettes `initial` times half their taxi-cab distance — the plain MWPM weight of C14;
+  * `cell_nonneg`, `distance_nonneg` — non-negative `initial` and `factor` give non-negative site weights and edge weights
+    (all algorithms, all backgrounds);
   * `distance_both_virtual_zero` — two virtual indices are at distance 0 for every algorithm and background;
   * `distance_algorithm_2_symmetric` — algorithm 2 (down-across / across-down minimum) does not depend on the orientation
     of the pair;  algorithm 1 DOES (`distance_algorithm_1_not_symmetric`: a concrete background, kernel-evaluated; the
@@ -182,6 +184,35 @@ theorem empty_background_distance_1 (R C : Int) (initial factor : Rat) (sh : Sha
     · rw [if_neg h, if_neg (fun k => h k.symm)]
   rw [e, sumRange_parity initial (src.2 + 1) _ a (by omega), sumRange_parity initial (tgt.1 + 1) _ b (by omega)]
   simp [Rat.add_mul]
+
+/-- with non-negative `initial` and `factor` every cell of every background is non-negative -/
+theorem cell_nonneg (R C : Int) (initial factor : Rat) (sh : Shape) (ps : List (Idx × Idx)) (r c : Int)
+    (hi : 0 ≤ initial) (hf : 0 ≤ factor) : 0 ≤ cell R C initial factor sh ps r c := by
+  unfold cell
+  split
+  · exact Rat.mul_nonneg hi (pow_nonneg' factor hf _)
+  · exact Rat.le_refl
+
+/-- hence every edge weight handed to `gt.mwpm` is non-negative, for every algorithm -/
+theorem distance_nonneg (R C : Int) (g : Int → Int → Rat) (alg : Nat) (src tgt : Idx) (hg : ∀ r c, 0 ≤ g r c) :
+    0 ≤ distance R C g alg src tgt := by
+  unfold distance
+  split
+  · exact Rat.le_refl
+  · have s := fun (f : Int → Rat) (lo hi : Int) (h : ∀ x, 0 ≤ f x) => sumRange_nonneg f lo hi h
+    simp only
+    split
+    · exact Rat.add_nonneg (s _ _ _ (fun r => hg r _)) (s _ _ _ (fun c => hg _ c))
+    · split
+      · exact le_min' _ _ _ (Rat.add_nonneg (s _ _ _ (fun r => hg r _)) (s _ _ _ (fun c => hg _ c)))
+          (Rat.add_nonneg (s _ _ _ (fun c => hg _ c)) (s _ _ _ (fun r => hg r _)))
+      · refine le_min' _ _ _ (le_min' _ _ _ (le_min' _ _ _ ?_ ?_) ?_) ?_
+        · exact Rat.add_nonneg (s _ _ _ (fun r => hg r _)) (s _ _ _ (fun c => hg _ c))
+        · exact Rat.add_nonneg (s _ _ _ (fun c => hg _ c)) (s _ _ _ (fun r => hg r _))
+        · exact Rat.add_nonneg (Rat.add_nonneg (s _ _ _ (fun r => hg r _)) (s _ _ _ (fun c => hg _ c)))
+            (s _ _ _ (fun r => hg r _))
+        · exact Rat.add_nonneg (Rat.add_nonneg (s _ _ _ (fun c => hg _ c)) (s _ _ _ (fun r => hg r _)))
+            (s _ _ _ (fun c => hg _ c))
 
 /-- algorithm 1 depends on the orientation (3x3 lattice, one matched pair, factor 3) -/
 theorem distance_algorithm_1_not_symmetric :
